@@ -40,9 +40,9 @@ func emitObls(c *Check, coll *collector, prefix string, ruleOf map[string]string
 // compressor hooks
 
 type compHooks struct {
-	hc      bool // HC compressor: offset >= 1 is not decided
-	name    string
-	boundV  ssa.Value
+	hc            bool // HC compressor: offset >= 1 is not decided
+	name          string
+	boundV        ssa.Value
 	finalCopySeen bool
 }
 
@@ -388,6 +388,8 @@ func checkC10(c *Check) {
 	}
 	c.RuleDoc["R10.7"] = "an incomplete block is never reported with a positive count: the count result is written only by return statements (= R11.10)"
 	ruleCountZeroOnError(c, p, "R10.7", "Compressor.CompressBlock", "CompressorHC.CompressBlock")
+	c.RuleDoc["R10.8"] = "= R14.13: every byte of the block is determined by this call (a token or-ed onto a byte the call has not stored takes stale bits: a final token with a match length, or any other invalid sequence)"
+	ruleDestinationWriteOnly(c, p, "R10.8")
 }
 
 func checkC11(c *Check) {
@@ -735,6 +737,15 @@ func portableDecoderRulesImpl(c *Check, prefix string) {
 			if n, okR := calleeRange(staticCallee(call)); okR && n == 16 {
 				h.offsetVals = append(h.offsetVals, v)
 			}
+			// the same word read in place: binary.LittleEndian.Uint16(src[si:]), usually widened at once
+			if f := staticCallee(call); f != nil && f.Pkg != nil && f.Pkg.Pkg.Path() == "encoding/binary" && f.Name() == "Uint16" {
+				h.offsetVals = append(h.offsetVals, v)
+				for _, r := range *call.Referrers() {
+					if cv, isCv := r.(*ssa.Convert); isCv {
+						h.offsetVals = append(h.offsetVals, cv)
+					}
+				}
+			}
 			return
 		}
 		if n, u, isI := isIntType(v.Type()); isI && u && n >= goWordBits {
@@ -829,112 +840,137 @@ func portableDecoderRulesImpl(c *Check, prefix string) {
 // of an extended literal or match length) is left only through the test of the byte just read against 255, or
 // through an error return. An exit on any other condition (end of input, a count) accepts a length whose encoding
 // was cut short, which the assembly decoders reject.
-func ruleExtensionLoops(c *Check, p *Program, fn *ssa.Function, rule string) {
+func ruleExtensionLoops(c *Check, p *Program, top *ssa.Function, rule string) {
 	n := 0
-	for _, h := range fn.Blocks {
-		// natural loop of every back edge into h
-		body := map[*ssa.BasicBlock]bool{}
-		for _, pr := range h.Preds {
-			if !(pr.Index >= h.Index && h.Dominates(pr)) {
+	// the loops may sit in the decoder or in a helper it calls (one loop shared by both lengths counts once per call)
+	for _, fn := range deepFuncs(top, 2) {
+		weight := 1
+		if fn != top {
+			weight = len(callSitesOf(fn))
+		}
+		for _, h := range fn.Blocks {
+			// natural loop of every back edge into h
+			body := map[*ssa.BasicBlock]bool{}
+			for _, pr := range h.Preds {
+				if !(pr.Index >= h.Index && h.Dominates(pr)) {
+					continue
+				}
+				body[h] = true
+				stack := []*ssa.BasicBlock{pr}
+				for len(stack) > 0 {
+					x := stack[len(stack)-1]
+					stack = stack[:len(stack)-1]
+					if body[x] {
+						continue
+					}
+					body[x] = true
+					stack = append(stack, x.Preds...)
+				}
+			}
+			if len(body) == 0 || len(body) > 6 {
+				continue // not a loop head, or the main loop of the decoder
+			}
+			// the byte read in the loop and added to a length
+			var xs []ssa.Value
+			for b := range body {
+				for _, in := range b.Instrs {
+					ld, ok := in.(*ssa.UnOp)
+					if !ok || ld.Op != token.MUL {
+						continue
+					}
+					if _, isIA := ld.X.(*ssa.IndexAddr); !isIA {
+						continue
+					}
+					if bt, isB := ld.Type().Underlying().(*types.Basic); !isB || bt.Kind() != types.Uint8 {
+						continue
+					}
+					xs = append(xs, ld)
+				}
+			}
+			if len(xs) == 0 {
 				continue
 			}
-			body[h] = true
-			stack := []*ssa.BasicBlock{pr}
-			for len(stack) > 0 {
-				x := stack[len(stack)-1]
-				stack = stack[:len(stack)-1]
-				if body[x] {
-					continue
+			isX := func(v ssa.Value) bool {
+				for _, x := range xs {
+					if v == x || derivesFromValue(v, x) {
+						return true
+					}
 				}
-				body[x] = true
-				stack = append(stack, x.Preds...)
+				return false
 			}
-		}
-		if len(body) == 0 || len(body) > 6 {
-			continue // not a loop head, or the main loop of the decoder
-		}
-		// the byte read in the loop and added to a length
-		var xs []ssa.Value
-		for b := range body {
-			for _, in := range b.Instrs {
-				ld, ok := in.(*ssa.UnOp)
-				if !ok || ld.Op != token.MUL {
-					continue
-				}
-				if _, isIA := ld.X.(*ssa.IndexAddr); !isIA {
-					continue
-				}
-				if bt, isB := ld.Type().Underlying().(*types.Basic); !isB || bt.Kind() != types.Uint8 {
-					continue
-				}
-				xs = append(xs, ld)
-			}
-		}
-		if len(xs) == 0 {
-			continue
-		}
-		isX := func(v ssa.Value) bool {
-			for _, x := range xs {
-				if v == x || derivesFromValue(v, x) {
-					return true
+			adds := false
+			for b := range body {
+				for _, in := range b.Instrs {
+					if bo, ok := in.(*ssa.BinOp); ok && bo.Op == token.ADD && (isX(bo.X) || isX(bo.Y)) {
+						adds = true
+					}
 				}
 			}
-			return false
-		}
-		adds := false
-		for b := range body {
-			for _, in := range b.Instrs {
-				if bo, ok := in.(*ssa.BinOp); ok && bo.Op == token.ADD && (isX(bo.X) || isX(bo.Y)) {
-					adds = true
-				}
+			if !adds {
+				continue
 			}
-		}
-		if !adds {
-			continue
-		}
-		n++
-		c.Sites++
-		bad := ""
-		for b := range body {
-			for k, su := range b.Succs {
-				if body[su] {
-					continue
-				}
-				// an exit edge: an error return, or the terminator test
-				if len(su.Instrs) > 0 {
-					if r, isRet := su.Instrs[len(su.Instrs)-1].(*ssa.Return); isRet && len(su.Instrs) <= 5 && len(r.Results) == 1 {
-						res := r.Results[0]
-						// named result: the value the return statement stores in this block
-						if ld, isLd := res.(*ssa.UnOp); isLd && ld.Op == token.MUL {
-							for _, j := range su.Instrs {
-								if st, isS := j.(*ssa.Store); isS && st.Addr == ld.X {
-									res = st.Val
+			n += weight
+			c.Sites++
+			bad := ""
+			for b := range body {
+				for k, su := range b.Succs {
+					if body[su] {
+						continue
+					}
+					// an exit edge: an error return, or the terminator test
+					if len(su.Instrs) > 0 {
+						if r, isRet := su.Instrs[len(su.Instrs)-1].(*ssa.Return); isRet && len(su.Instrs) <= 5 && len(r.Results) > 1 {
+							// a helper reports failure with a false flag or a negative number among its results
+							failed := false
+							for _, res := range r.Results {
+								if kk, isK := res.(*ssa.Const); isK && kk.Value != nil {
+									if kk.Value.Kind() == constant.Bool && !constant.BoolVal(kk.Value) {
+										failed = true
+									}
+									if kk.Value.Kind() == constant.Int && kk.Int64() < 0 {
+										failed = true
+									}
+								}
+							}
+							if failed {
+								continue
+							}
+						}
+						if r, isRet := su.Instrs[len(su.Instrs)-1].(*ssa.Return); isRet && len(su.Instrs) <= 5 && len(r.Results) == 1 {
+							res := r.Results[0]
+							// named result: the value the return statement stores in this block
+							if ld, isLd := res.(*ssa.UnOp); isLd && ld.Op == token.MUL {
+								for _, j := range su.Instrs {
+									if st, isS := j.(*ssa.Store); isS && st.Addr == ld.X {
+										res = st.Val
+									}
+								}
+							}
+							if kk, isK := res.(*ssa.Const); isK && kk.Value != nil && kk.Int64() < 0 {
+								continue
+							}
+						}
+					}
+					ok := false
+					if ifi, isIf := b.Instrs[len(b.Instrs)-1].(*ssa.If); isIf {
+						if bo, isBO := ifi.Cond.(*ssa.BinOp); isBO {
+							for _, pr := range [][2]ssa.Value{{bo.X, bo.Y}, {bo.Y, bo.X}} {
+								if kv, isK := constUint(pr[1]); isK && (kv == 255 || kv == 254) && isX(pr[0]) {
+									ok = true
 								}
 							}
 						}
-						if kk, isK := res.(*ssa.Const); isK && kk.Value != nil && kk.Int64() < 0 {
-							continue
-						}
+						_ = k
 					}
-				}
-				ok := false
-				if ifi, isIf := b.Instrs[len(b.Instrs)-1].(*ssa.If); isIf {
-					if bo, isBO := ifi.Cond.(*ssa.BinOp); isBO {
-						for _, pr := range [][2]ssa.Value{{bo.X, bo.Y}, {bo.Y, bo.X}} {
-							if kv, isK := constUint(pr[1]); isK && (kv == 255 || kv == 254) && isX(pr[0]) {
-								ok = true
-							}
-						}
+					if !ok {
+						bad = p.InstrPos(b.Instrs[len(b.Instrs)-1])
 					}
-					_ = k
-				}
-				if !ok {
-					bad = p.InstrPos(b.Instrs[len(b.Instrs)-1])
 				}
 			}
+			c.Cond(bad == "", rule, fmt.Sprintf("go|decodeBlock#length-extension-loop#%d", n), p.InstrPos(xs[0].(ssa.Instruction)), "a length extension is left only when the byte just read is below 255 (or with an error)", "every exit edge tests the byte against 255 or returns an error", "the loop can also be left at "+bad+" on another condition: a length whose extension bytes were cut short is accepted with the partial value")
 		}
-		c.Cond(bad == "", rule, fmt.Sprintf("go|decodeBlock#length-extension-loop#%d", n), p.InstrPos(xs[0].(ssa.Instruction)), "a length extension is left only when the byte just read is below 255 (or with an error)", "every exit edge tests the byte against 255 or returns an error", "the loop can also be left at "+bad+" on another condition: a length whose extension bytes were cut short is accepted with the partial value")
 	}
+	fn := top
 	c.Cond(n >= 2, rule, "go|decodeBlock#length-extension-loops", p.Pos(fn.Pos()), "the two length-extension loops of the portable decoder were found", fmt.Sprintf("%d loops", n), fmt.Sprintf("only %d loops that add source bytes to a length were found (expected 2)", n))
 }
 
